@@ -18,6 +18,7 @@ var LexerDevs = []struct{ Name, Breaks string }{
 	{"css_no_eof", "NoSpin"},
 	{"hdrparam_no_eof", "NoSpin"},
 	{"soydocparam_eof_underflow", "NoCrash"},
+	{"neg_unicode_digit", "NoCrash"},
 	{"string_no_eof", "NoSpin"},
 	{"blockcomment_no_eof", "NoSpin"},
 	{"soydoc_no_eof", "NoSpin"},
@@ -234,7 +235,7 @@ func (m *Models) startDevs() {
 	thorough := ctx.Thorough()
 	if has("lexer") {
 		for i, d := range LexerDevs {
-			if !thorough && i >= 3 {
+			if !thorough && i >= 4 {
 				break
 			}
 			switch d.Breaks {
